@@ -71,6 +71,18 @@ fn main() {
                 std::process::exit(2);
             }
         }
+        "selftest" if args.get(2).map(|s| s == "fidelity").unwrap_or(false) => {
+            let bin = args.get(3).cloned().unwrap_or_else(|| usage());
+            let n: u64 = args.get(4).and_then(|s| s.parse().ok()).unwrap_or(200);
+            let (done, diff) = walleye::sa_meta::fidelity(&bin, n);
+            match diff {
+                None => println!("fidelity: {} timing-free scripts give identical transcripts in the simulator and in {}", done, bin),
+                Some(d) => {
+                    eprintln!("fidelity mismatch after {} scripts: {}", done, d);
+                    std::process::exit(2);
+                }
+            }
+        }
         "selftest" => match referee::self_check(4) {
             Ok(n) => println!("referee ok, {} nodes", n),
             Err(e) => {
